@@ -52,7 +52,7 @@ def _h(b: bytes) -> str:
 
 class _Frame:
     __slots__ = ("cls", "msg", "writer", "payload", "start", "pstart", "end", "relayed", "reader_cls",
-                 "expected", "writer_cls")
+                 "expected", "writer_cls", "has_group")
 
 
 class _Run:
@@ -91,7 +91,7 @@ class _Run:
     def go(self):
         tape, trace, stats = self.tape, self.trace, self.stats
         ref: RefSchema = self.sim.ref
-        gen = Gen(tape, big=True)
+        gen = Gen(tape, big=True, nan=False)      # equality of NaN-holding messages is not C10's business
         n_frames = 1 + tape.draw(6, "n_frames")
         f = SimFile()
         frames: List[_Frame] = []
@@ -152,7 +152,10 @@ class _Run:
                 # here knows - a group, fixed-width fields, field numbers with 2- and 3-byte tags
                 extra = b""
                 for _ in range(1 + tape.draw(3, "foreign-n")):
-                    extra += tape.choice(FOREIGN_UNKNOWN, "foreign-occ")
+                    occ = tape.choice(FOREIGN_UNKNOWN, "foreign-occ")
+                    extra += occ
+                    if occ[:1] and (occ[0] & 7) == wire.SGROUP or occ in FOREIGN_UNKNOWN[:2]:
+                        fr.has_group = True
                 payload = payload + extra if tape.draw(2, "foreign-front") == 0 else extra + payload
                 fr.payload = payload
                 f.writer().write(wire.enc_varint(len(payload)) + payload)
@@ -246,6 +249,12 @@ class _Run:
             try:
                 fr.expected = rc().parse(fr.payload)
             except Exception as e:  # noqa: BLE001
+                if getattr(fr, "has_group", False):
+                    # a decoder may reject proto2 groups altogether (C17 lets any input be rejected, and no
+                    # betterproto writer puts a group on a stream): recorded, and nothing else is judged
+                    stats["recorded:group-bearing-foreign-frame-rejected"] += 1
+                    trace.append(f"frame {k} carries a group and the decoder rejects it ({type(e).__name__}); run not judged")
+                    return False, self.evals, float(self.evals)
                 raise Violation("C10.S1", f"parse-raised-{type(e).__name__}",
                                 f"in-memory parse of intact payload of frame {k} raised: {e}")
         trace.append("readers: " + ", ".join(f"{fr.cls.__name__}->{fr.reader_cls.__name__}" for fr in good))
@@ -382,7 +391,7 @@ class _Run:
         while True:
             steps += 1
             if steps > 200:
-                raise Violation("C10.S4", "tail-does-not-finish", "tailing reader made 200 attempts")
+                raise RuntimeError("BUDGET: the tailing reader of the harness made 200 attempts")   # HARNESS, no verdict
             # the disk makes more bytes visible
             if f.frontier < limit:
                 adv = [1, 2, 3, 5, 8, 21, 64, 4096, 1 << 20][tape.draw(9, "advance")]
